@@ -1,7 +1,10 @@
 #!/bin/sh
-# Build the three dumpers offline (MANIFEST.setup_cmd). Everything else is Python stdlib.
+# Build the dumpers offline (MANIFEST.setup_cmd): three Rust tools and the javac-tree dumper. Everything else is
+# Python stdlib.
 set -e
 cd "$(dirname "$0")/tools"
 [ -f Cargo.lock ] || cp /repo/Cargo.lock Cargo.lock
 CARGO_NET_OFFLINE=true cargo build --offline --quiet
+mkdir -p javadump/classes
+javac -nowarn -d javadump/classes javadump/JavaDump.java
 echo "tools built"
